@@ -59,7 +59,11 @@ func genC28(t *rapid.T) c28Case {
 		case "Unsubscribe":
 			cl = clsim.Call{API: "Unsubscribe", Topic: "t/a"}
 		case "Publish":
-			cl = clsim.Call{API: "Publish", Topic: "ab", QoS: uint8(rapid.IntRange(0, 3).Draw(t, "qos")), Payload: []byte("x")}
+			// (a short name, or the name which Register registers: unknown before that, the call fails at once)
+			cl = clsim.Call{API: "Publish", Topic: rapid.SampledFrom([]string{"ab", "ab", "t/r"}).Draw(t, "ptopic"), QoS: uint8(rapid.IntRange(0, 3).Draw(t, "qos")), Payload: []byte("x")}
+			if cl.Topic == "t/r" && cl.QoS == 3 {
+				cl.QoS = 1
+			}
 		case "PublishPredefined":
 			cl = clsim.Call{API: "PublishPredefined", TopicID: 7, QoS: uint8(rapid.IntRange(0, 2).Draw(t, "qos")), Payload: []byte("y")}
 		case "Ping":
@@ -85,7 +89,7 @@ func genC28(t *rapid.T) c28Case {
 		case k < 8:
 			c.Ops = append(c.Ops, c28Op{AdvMs: rapid.SampledFrom([]int{100, 1900, 2000, 2100, 5000, 5500}).Draw(t, "adv")})
 		default:
-			c.Ops = append(c.Ops, c28Op{Inject: rapid.SampledFrom([]string{"disconnect", "garbage", "publish", "register", "pingresp", "connack", "suback"}).Draw(t, "inject")})
+			c.Ops = append(c.Ops, c28Op{Inject: rapid.SampledFrom([]string{"disconnect", "garbage", "publish", "register", "register-conflict", "register-conflict", "register-again", "pingresp", "connack", "suback"}).Draw(t, "inject")})
 		}
 	}
 	c.EndWith = rapid.SampledFrom([]string{"Close", "Close", "gateway-disconnect", "nothing"}).Draw(t, "end")
@@ -279,6 +283,12 @@ func runC28(c c28Case) (r vf.Result) {
 				s.GatewaySend(snref.Pkt{Type: snref.PUBLISH, TIT: snref.TITNormal, TopicID: 4242, QoS: 1, MsgID: 77, Data: []byte("z")}, false)
 			case "register":
 				s.GatewaySend(snref.Pkt{Type: snref.REGISTER, TopicID: 50, MsgID: 78, TopicName: "in/jected"}, false)
+			case "register-conflict":
+				// a name the client registers itself, under another topic ID
+				s.GatewaySend(snref.Pkt{Type: snref.REGISTER, TopicID: 51, MsgID: 79, TopicName: "t/r"}, false)
+			case "register-again":
+				// ... or under the very ID the gateway handed out (the IDs start at 10)
+				s.GatewaySend(snref.Pkt{Type: snref.REGISTER, TopicID: 10, MsgID: 80, TopicName: "t/r"}, false)
 			case "pingresp":
 				s.GatewaySend(snref.Pkt{Type: snref.PINGRESP}, false)
 			case "connack":
@@ -326,7 +336,7 @@ end:
 func TestC28(t *testing.T) {
 	vf.Check(t, vf.Prop[c28Case]{
 		ID: "C28", Name: "calls-return", Bubble: true, DeadlockIsViolation: true, MarkCurrent: true,
-		Rule: "real client (KeepAlive 0 / 1 s / 2 s / 5 s with RetryDelay 1 s, RetryCount 0-2) against an adversarial scripted gateway whose treatment of each successive client datagram is drawn (answer properly / stay silent / wrong message ID / wrong packet types / proper answer preceded by unsolicited PINGRESP+REGISTER+PUBLISH / DISCONNECT / undecodable datagram / duplicated answer / PUBREC repeated every 300 ms for 12 s with the PUBCOMP never sent), optionally silent for good from datagram k on; 1-6 operations: every API call (Connect, Register, Subscribe[Predefined], Unsubscribe, Publish[Predefined] QoS 0-3, Ping, Sleep, Disconnect), optionally two calls started at the same instant, time advances around the keep-alive ticks, unsolicited gateway packets; ended by Close, by a gateway DISCONNECT or not at all. Non-trivial = the gateway misbehaves at least once; concurrent calls are labelled; distinct by case.",
+		Rule: "real client (KeepAlive 0 / 1 s / 2 s / 5 s with RetryDelay 1 s, RetryCount 0-2) against an adversarial scripted gateway whose treatment of each successive client datagram is drawn (answer properly / stay silent / wrong message ID / wrong packet types / proper answer preceded by unsolicited PINGRESP+REGISTER+PUBLISH / DISCONNECT / undecodable datagram / duplicated answer / PUBREC repeated every 300 ms for 12 s with the PUBCOMP never sent), optionally silent for good from datagram k on; 1-6 operations: every API call (Connect, Register, Subscribe[Predefined], Unsubscribe, Publish[Predefined] QoS 0-3, Ping, Sleep, Disconnect), optionally two calls started at the same instant, time advances around the keep-alive ticks, unsolicited gateway packets (DISCONNECT, garbage, PUBLISH, REGISTER of a new name, REGISTER of the name the client registers itself under another or the same topic ID, PINGRESP, CONNACK, SUBACK); ended by Close, by a gateway DISCONNECT or not at all. Non-trivial = the gateway misbehaves at least once; concurrent calls are labelled; distinct by case.",
 		Assumptions: []string{"bounds on the virtual clock: Connect (RetryCount+1) x ConnectTimeout; Register/Subscribe/Unsubscribe/Ping/Disconnect/Close and Publish QoS 1 (RetryCount+1) x RetryDelay; Publish QoS 2 twice that; Sleep adds the sleep duration and the library's fixed 1-minute PINGRESP wait; +2 s (1 s receive poll, same-instant scheduling)",
 			"a hang is observed as 'not returned after 10 x the bound'; goroutines still blocked when the case ends are reported by the bubble itself"},
 		Gen: genC28,
